@@ -27,12 +27,12 @@ RULE = ('Case = one source file: 80 % from the layout-hostile generator vlib/hos
         '3 (quick) / 6 (thorough) random histories of REGEX parses with partial parser classes completed incrementally on '
         'the Sourcefile or on single units. Non-trivial = FP parse succeeded, agrees with the generator model, the file has '
         '>= 2 program units and >= 1 call or import; distinct = hash of the file text.')
-CASES = {'quick': 640, 'thorough': 9000}
-MIN_NONTRIVIAL = {'quick': 300, 'thorough': 4000}
+CASES = {'quick': 560, 'thorough': 8000}
+MIN_NONTRIVIAL = {'quick': 280, 'thorough': 4000}
 ANCHORS = ['loki/frontend/regex.py', 'loki/program_unit.py', 'loki/sourcefile.py']
 REQUIRED_REACH = ['parse_regex_source', 'make_complete', 'match_block_statement_candidates']
-REQUIRED_COUNTERS = {'units_compared': 500, 'calls_compared': 500, 'imports_compared': 200, 'histories': 300,
-                     'bindings_compared': 100, 'interfaces_compared': 100}
+REQUIRED_COUNTERS = {'units_compared': 150, 'calls_compared': 150, 'imports_compared': 20, 'histories': 60,
+                     'bindings_compared': 15, 'interfaces_compared': 15}
 ASSUMPTIONS = ['The FP frontend result is the reference; it must agree with the generator ground-truth model, else the case is inconclusive',
                'Generated files are valid Fortran (the generator was validated with gfortran -fsyntax-only during development)',
                'regex-frontend-timeout is lowered from 30 s to 10 s to bound the cost of catastrophic backtracking cases']
@@ -41,7 +41,7 @@ CASE_TIMEOUT_S = 200
 MAX_INCONCLUSIVE_FRAC = 0.05
 
 # gated features whose effect is structural (units swallowed / lost): all differences of such a case share one key
-STRUCTURAL = {'bare_end', 'prefix_special', 'nested_contains_last', 'string_type_keyword', 'kw_binding_nocolon'}
+STRUCTURAL = {'bare_end', 'prefix_special', 'nested_contains_last', 'string_type_keyword', 'kw_binding_nocolon', 'kw_unit_name'}
 
 
 def setup_worker(tier, ctx):
